@@ -93,8 +93,8 @@ def cfg_id(c):
         if c["su"][o] != "keep":
             return c["su"][o][0]
         return "k%d%d%d" % (c["disc"][o], c["conn"][o], c["rel"][o])
-    return "%s.%s.%s|b%d|%s|%s%d|t%d" % (ov("rdwr"), ov("llcp"), ov("card"), c["beep"], c["role"], c["env"],
-                                          c["k"], c["termAt"])
+    return "%s.%s.%s|b%d|%s|%s%s%d|t%d" % (ov("rdwr"), ov("llcp"), ov("card"), c["beep"], c["role"], c["env"],
+                                            c.get("ttype", "") if c["env"] == "tag" else "", c["k"], c["termAt"])
 
 
 # ------------------------------------------------------------------------------------------------
@@ -114,11 +114,14 @@ class Timeshift(object):
         nfc.clf.time, nfc.dep.time, nfc.llcp.llc.time = self.saved
 
 
-def make_env(name, k):
+TAG_TYPES = {"T1": clfdev.T1Tag, "T2": clfdev.T2Tag, "T3": clfdev.T3Tag, "T4": clfdev.T4Tag}
+
+
+def make_env(name, k, ttype="T2"):
     if name == "nothing":
         return clfdev.Nothing()
     if name == "tag":
-        return clfdev.T2Tag(k)
+        return TAG_TYPES[ttype](k)
     if name == "peerT":
         return clfdev.Peer("target", k)
     if name == "peerI":
@@ -147,7 +150,7 @@ class ConnectRun(object):
         self.phase = ""
         self.in_llc = False
         self.in_term = False
-        self.dev = clfdev.SimDevice(nfc.clf, make_env(cfg["env"], cfg["k"]), clock)
+        self.dev = clfdev.SimDevice(nfc.clf, make_env(cfg["env"], cfg["k"], cfg.get("ttype", "T2")), clock)
         self.dev.observer = self.on_driver
         self.clf = nfc.clf.ContactlessFrontend()
         self.clf.device = self.dev
@@ -276,7 +279,7 @@ class ConnectRun(object):
             def su_rdwr(targets):
                 self.cb("Startup", "rdwr", c["su"]["rdwr"])
                 return {"keep": targets, "drop": [], "wrong": ["106A"]}[c["su"]["rdwr"]]
-            kw["rdwr"] = {"targets": ["106A"], "iterations": 1, "interval": 0.0, "on-startup": su_rdwr,
+            kw["rdwr"] = {"targets": ["212F" if (c["env"] == "tag" and c.get("ttype") == "T3") else "106A"], "iterations": 1, "interval": 0.0, "on-startup": su_rdwr,
                           "on-discover": recorder("Discover", "rdwr", c["disc"]),
                           "on-connect": recorder("Connect", "rdwr", c["conn"], phase_setter("presence")),
                           "on-release": release("rdwr"), "beep-on-connect": c["beep"]}
@@ -494,6 +497,7 @@ def sense_sessions(tier, seed, clock):
 
 # ------------------------------------------------------------------------------------------------
 def classify(tr, line, act, why, what):
+    """canonical key: the failing clause and the situation (event, option, environment class), never a seed"""
     kind = why[0] if why else "?"
     ev = tr["ev"][line - 1] if line - 1 < len(tr["ev"]) else {}
     if what == "connect":
@@ -501,11 +505,11 @@ def classify(tr, line, act, why, what):
         where = "%s%s" % (act, (":" + ev.get("o")) if ev.get("o") else "")
         if kind == "inv":
             return "connect:inv:%s@%s" % (",".join(why[1]), where)
-        opts = "+".join(o for o in OPTS if c["has"][o] and c["su"][o] == "keep") or "no-option"
-        return "connect:%s@%s:%s:%s:got=%s" % (kind, where, opts, c["env"], ev.get("r", ""))
+        return "connect:%s@%s:%s:got=%s" % (kind, where, c["env"], ev.get("r", ""))
     if kind == "inv":
         return "sense:inv:%s@%s" % (",".join(why[1]), act)
-    return "sense:%s@%s:%s->%s" % (kind, act, ",".join(ev.get("kinds", [])) or ev.get("sent", ""), ev.get("res", ""))
+    return "sense:%s@%s:res=%s,sent=%s,target=%s,field=%s" % (kind, act, ev.get("res", ""), ev.get("sent", ""),
+                                                            ev.get("target", ""), ev.get("field", ""))
 
 
 def selftests_connect(tr):
